@@ -58,7 +58,7 @@ def parse_trace(path):
     return out
 
 
-def run_mt(run, lib, mode, nthreads, ncalls, arg, ini_text, tag, exe=None, timeout=90, env=None):
+def run_mt(run, lib, mode, nthreads, ncalls, arg, ini_text, tag, exe=None, timeout=90, env=None, pty_stdin=False):
     """one run of the multi-threaded caller. Returns dict(status, stderr, trace(parsed), out(lines of the file sink), dir)."""
     d = os.path.join(run.scratch, "mt-" + tag)
     if os.path.isdir(d):
@@ -70,21 +70,32 @@ def run_mt(run, lib, mode, nthreads, ncalls, arg, ini_text, tag, exe=None, timeo
     e = {"PATH": "/usr/bin:/bin", "HOME": "/root", "LD_PRELOAD": "%s %s" % (lib, LIBSCHED), "LOGNAME": "verif", "TZ": "UTC"}
     if env:
         e.update(env)
+    fds = None
+    if pty_stdin:       # a terminal on stdin (data sources that look at the controlling terminal, e.g. ipaddr -> utmp)
+        import pty
+        fds = pty.openpty()
     try:
         p = subprocess.run([exe or MTCALLER, mode, ini, trace, str(nthreads), str(ncalls), arg], env=e, cwd=d, timeout=timeout,
-                           stdin=subprocess.DEVNULL, stdout=subprocess.PIPE, stderr=subprocess.PIPE)
+                           stdin=fds[1] if fds else subprocess.DEVNULL, stdout=subprocess.PIPE, stderr=subprocess.PIPE)
         status, err = p.returncode, p.stderr.decode(errors="replace")
     except subprocess.TimeoutExpired as ex:
         status, err = "timeout", (ex.stderr or b"").decode(errors="replace")
+    finally:
+        if fds:
+            os.close(fds[0]); os.close(fds[1])
     outp = os.path.join(d, "out.log")
     lines = open(outp, "rb").read().split(b"\n")[:-1] if os.path.exists(outp) else []
     return {"status": status, "stderr": err, "trace": parse_trace(trace), "out": lines, "dir": d}
 
 
+class CalibrationMismatch(CheckError):
+    """the traced lock sequence of a wrapped call is not what the model's per-call program can express: a deviation from the model, not a machinery failure"""
+
+
 SITE_KIND = {"snoopy_tsrm_ctor": "c", "snoopy_tsrm_dtor": "d", "snoopy_tsrm_getCurrentThreadRepoEntry": "e",
              "snoopy_tsrm_get_threadCount": "n", "snoopy_tsrm_doesThreadRepoEntryExist": "x",
              # a libc call made with the mutex held (lock; private work; unlock): the same lock boundaries as an entry lookup
-             "snoopy_tsrm_localtime_r": "e"}
+             "snoopy_tsrm_localtime_r": "e", "snoopy_tsrm_strftime": "e", "snoopy_tsrm_getutline": "e"}
 
 
 def calibrate(run, lib, ini_text, tag="calib"):
@@ -108,14 +119,15 @@ def calibrate(run, lib, ini_text, tag="calib"):
         locks = [SITE_KIND.get(site, "?") for (kind, site) in c if kind == "L"]
         # shape: c  (e|n)*  e d      (ctor's lock, accessors, the destructor's own lookup, the destructor's remove)
         if len(locks) < 3 or locks[0] != "c" or locks[-1] != "d" or locks[-2] != "e" or "?" in locks or "x" in locks:
-            raise CheckError("calibration: unexpected lock-site sequence %s" % "".join(locks))
+            raise CalibrationMismatch("calibration: unexpected lock-site sequence %s (expected: constructor, accessors, the destructor's lookup, the destructor's remove)" % "".join(locks))
         nu = len([1 for (kind, _) in c if kind == "U"])
         no = len([1 for (kind, _) in c if kind == "O"])
         if nu != len(locks) or no != 1:
-            raise CheckError("calibration: %d locks, %d unlocks, %d once calls in one wrapped call" % (len(locks), nu, no))
+            raise CalibrationMismatch("calibration: %d locks, %d unlocks, %d once calls in one wrapped call" % (len(locks), nu, no))
         progs.append("".join(locks[1:-2]))
     if progs[0] != progs[1]:
-        raise CheckError("calibration: the two calls differ: %s / %s" % (progs[0], progs[1]))
+        raise CalibrationMismatch("two consecutive wrapped calls of one thread take the repository mutex differently: accessor sequence %s in the first call, %s in the second "
+                                  "(the model: every call goes through constructor, the same accessors, destructor; nothing is carried over from call to call)" % (progs[0], progs[1]))
     return progs[0], len(progs[0]) + 3, calls[0]
 
 
